@@ -694,9 +694,6 @@ func c16Run(e *core.Env) {
 	seen := map[string]bool{}
 	level0 := c16Steps(c16Small, true)
 	level1 := c16Steps(c16Tiny, false)
-	if e.Thorough() {
-		level1 = c16Steps(c16Small, false)
-	}
 	level2 := c16Steps(c16Tiny, false)
 	maxDepth := 0
 	for lvl := 0; lvl < depth; lvl++ {
@@ -799,7 +796,7 @@ func init() {
 		Rule:  "explicit-state BFS: a state is a receiver (value, representation class inline+/inline-/heap-small/heap, slack) reached by a method sequence; every transition applies one BigInt method with every argument tuple and alias pattern of the alphabet to the receiver and the same call to a mirrored *big.Int graph; after every transition all read-only observers are compared, arguments must be unchanged and representation invariants hold; states are deduplicated by canonical key (per worker shard)",
 		Bounds: func(tier string) string {
 			if tier == "thorough" {
-				return fmt.Sprintf("alphabet of %d boundary values (0, +-1..10, 2^31..2^32+1, 2^63-1..2^64+1, 2^127..2^128+1, 10^19, 10^38, 10^39, 2^200(+1)), inline and heap-backed; depth 3: level 0 from every alphabet state with 14-value argument set, level 1 with 14-value set, level 2 with 5-value set; 17 binary + 5 unary methods, shifts {0,1,63,64,65,127,128,129,200}, setters, encoders", len(c16Alphabet))
+				return fmt.Sprintf("alphabet of %d boundary values (0, +-1..10, 2^31..2^32+1, 2^63-1..2^64+1, 2^127..2^128+1, 10^19, 10^38, 10^39, 2^200(+1)), inline and heap-backed; depth 3: level 0 from every alphabet state with the 14-value argument set (x2 representations, + receiver aliasing), levels 1 and 2 from every new state with the 5-value set (the run is capped by the soft deadline and reports how far it got); 17 binary + 5 unary methods, shifts {0,1,63,64,65,127,128,129,200}, setters, encoders", len(c16Alphabet))
 			}
 			return fmt.Sprintf("alphabet of %d boundary values, inline and heap-backed; depth 2: level 0 from every alphabet state with a 14-value argument set (x2 representations, + receiver aliasing), level 1 from every new state with a 5-value set; 17 binary + 5 unary methods, shifts, setters, encoders", len(c16Alphabet))
 		},
